@@ -69,7 +69,7 @@ CHECKS["C16"] = dict(
          "loopback TCP, and servers closed while their peers drop). Every as-found defect is kept as a negative-control configuration that "
          "TLC must still refute." + _LAYERS,
     note=_IF_NOTE + " Loopback TCP on ephemeral ports for the server level.",
-    technique="TLA+ model checking (TLC, incl. liveness of Close) + fault injection at every step of every session on real connections + free-running stress with TLC trace validation",
+    technique="TLA+ model checking (TLC, incl. liveness of Close and of request completion under a fair clock; timer goroutines as threads of the forced schedules) + fault injection at every step of every session on real connections + free-running stress with TLC trace validation",
     design_ref="DESIGN.md §0.4, §3.5, §4 C16")
 
 CHECKS["C19"] = dict(
@@ -88,10 +88,10 @@ CHECKS["C06"] = dict(
          "operators; TLC computes byte-exact vectors (SegmentVec.tla) that the real encoder must reproduce and the real decoder must "
          "accept, and validates segments recorded from the real codec (SegmentTrace.tla). A sweep over payload lengths 0..131071 "
          "(all of them in the thorough tier) x contents x flag x {none, LZ4} checks round trip, header fields and both CRCs against "
-         "a bit-serial reference that is re-anchored to the TLC vectors on every run.",
+         "a bit-serial reference that is re-anchored to the TLC vectors on every run." + _CS,
     note="Trusted: Segment.tla's reading of native_protocol_v5.spec §2 (raw fallback = uncompressed-length 0); refwire (anchored to TLC "
          "each run); the LZ4 library's UncompressBlock to open transmitted blocks. Known finding: dependency pierrec/lz4 v4.0.3.",
-    technique="TLA+ layout operators evaluated by TLC (vectors + trace validation) + exhaustive length sweep on the real codec",
+    technique="TLA+ layout operators evaluated by TLC (vectors + trace validation) + exhaustive length sweep on the real codec + replay of TLC-enumerated call histories (CodecSeq.tla)",
     design_ref="DESIGN.md §3.4, §4 C06")
 CHECKS["C07"] = dict(
     level="fault_enumeration",
@@ -102,18 +102,19 @@ CHECKS["C07"] = dict(
          "(8.8e7 patterns for the 3-byte header; 7.1e8 for the 5-byte header in thorough), plus payload single flips, all pairs on "
          "small payloads and bursts up to 32 bits at every offset.",
     note="Trusted: affinity of the CRC-24 (TLC lemma + brute force on the real function); burst interiors are sampled (5 per offset/length).",
-    technique="TLA+ corruption model checked by TLC + exhaustive fault enumeration on the real decoder",
+    technique="TLA+ corruption model checked by TLC + exhaustive fault enumeration on the real decoder (every refused segment presented again)",
     design_ref="DESIGN.md §3.4, §4 C07")
 CHECKS["C08"] = dict(
     level="exploration",
     text="CompressLattice.tla states the assumption Decompress(Compress(x)) = x that the stream specifications rely on and enumerates "
          "the lattice algorithm x format x size class x content class; the harness materialises every point (seeded) and runs the "
          "real compressors and the frame/segment codecs with and without compression. TLA+ cannot say anything about LZ4/Snappy "
-         "internals, so this is exploration of a structured input space, not model checking.",
+         "internals, so this is exploration of a structured input space, not model checking." + _CS,
     note="Trusted: nothing beyond the Go toolchain; known finding: the pinned pierrec/lz4 v4.0.3 corrupts some blocks > 64 KiB.",
-    technique="TLA+-enumerated input lattice + round trip through the real compressors",
+    technique="TLA+-enumerated input lattice + round trip through the real compressors + replay of TLC-enumerated call histories (CodecSeq.tla)",
     design_ref="DESIGN.md §4 C08")
 
+_CS = ' The codec is also used more than once: CodecSeq.tla (the specified codec has no memory; history of calls with calls made to fail half way and results the caller keeps) is model-checked and every history it prints is executed on real codec instances, each result compared with that of the same call made alone.'
 _WIRE_NOTE = ("Trusted: the TLA+ transcription of specs/*.spec in WirePrim/WireMsg/WireShapes.tla; the builder/projection in harness/wire.go "
               "(self-checked on every vector: project(build(x)) = x). Value contents beyond the enumerated classes are covered by the random legs only.")
 CHECKS["C01"] = dict(
@@ -122,7 +123,7 @@ CHECKS["C01"] = dict(
          "every enum constant, legal header-flag combinations, stream-id classes) for all six versions; each is built as a real frame, "
          "encoded and decoded with no compression, LZ4 and Snappy, and the projection of the decoded frame must equal the abstract frame "
          "(equality up to what the wire cannot carry is built into the abstract form). Pure functions: structured enumeration, not state exploration.",
-    note=_WIRE_NOTE, technique="TLA+-enumerated case space (TLC) + round trip through the real codec compared in the abstract domain",
+    note=_WIRE_NOTE, technique="TLA+-enumerated case space (TLC) + round trip through the real codec compared in the abstract domain + replay of TLC-enumerated call histories (CodecSeq.tla)",
     design_ref="DESIGN.md §3.2, §4 C01, Appendix A")
 CHECKS["C02"] = dict(
     level="exploration",
@@ -131,14 +132,14 @@ CHECKS["C02"] = dict(
          "the admissible encodings and every admissible encoding must decode to the abstract frame. All 2^16 (version byte, opcode) headers "
          "are compared with WireHeader.tla's accept/reject table. This is the independent-oracle check a round trip cannot give.",
     note=_WIRE_NOTE + " Known finding: the v2 'text' type code cannot be decoded.",
-    technique="byte-exact vectors computed by TLC from a TLA+ transcription of the protocol documents",
+    technique="byte-exact vectors computed by TLC from a TLA+ transcription of the protocol documents + replay of TLC-enumerated call histories (CodecSeq.tla)",
     design_ref="DESIGN.md §3.2, §4 C02")
 CHECKS["C03"] = dict(
     level="exploration",
     text="For every vector of WireShapes.tla: the declared body length (struct field and bytes on the wire) equals the body bytes emitted, with "
          "and without compression; each message codec's EncodedLength equals what its encoder writes; every decoding path consumes exactly "
          "header + declared length (a sentinel follows each frame). Stream-level sequences (FrameStream.tla) are planned on top of this.",
-    note=_WIRE_NOTE, technique="TLA+-enumerated case space + length/position accounting on the real codec",
+    note=_WIRE_NOTE, technique="TLA+-enumerated case space + length/position accounting on the real codec + replay of TLC behaviours (FrameStream.tla) and call histories (CodecSeq.tla) on real streams",
     design_ref="DESIGN.md §3.3, §4 C03")
 CHECKS["C05"] = dict(
     level="exploration",
@@ -146,7 +147,7 @@ CHECKS["C05"] = dict(
          "DecodeBody / DecodeRawBody / DiscardBody on seekable and non-seekable sources, ConvertToRawFrame+EncodeRawFrame, "
          "EncodeHeader+EncodeBody) must agree with the full codec: same abstract frame, admissible bytes, exact end position, and "
          "re-encoding decoded bytes gives bytes that decode to an equal frame.",
-    note=_WIRE_NOTE, technique="TLA+-enumerated case space + path-equivalence checks on the real codec",
+    note=_WIRE_NOTE, technique="TLA+-enumerated case space + path-equivalence checks on the real codec + replay of TLC behaviours (FrameStream.tla) and call histories (CodecSeq.tla) on real streams",
     design_ref="DESIGN.md §3.3, §4 C05")
 
 _CQL_NOTE = ("Trusted: CqlValue.tla's transcription of native_protocol_v5.spec section 6 (and v2 section 6) and of the accepted-representation "
@@ -158,7 +159,7 @@ CHECKS["C11"] = dict(
          "representation x boundary value, plus duration / decimal / scalar tables and collections / tuples / UDTs with nulls; each case is "
          "encoded by the real codec, decoded into the same representation and into *interface{}, and compared with the value and the "
          "preferred type the specification names.",
-    note=_CQL_NOTE, technique="TLA+-enumerated case space with exact integer arithmetic + round trip through the real codecs",
+    note=_CQL_NOTE, technique="TLA+-enumerated case space with exact integer arithmetic + round trip through the real codecs + TLC trace validation of random conversions (CqlValueTrace.tla) + call histories (CodecSeq.tla)",
     design_ref="DESIGN.md §3.8, §4 C11")
 CHECKS["C12"] = dict(
     level="exploration",
@@ -166,7 +167,7 @@ CHECKS["C12"] = dict(
          "complement, minimal varint checked against the document's own example table as ASSUMEs, decimal, zig-zag vint duration, date "
          "offset 2^31, 2- vs 4-byte collection framing, null element = -1, tuple/UDT framing); the real Encode must emit exactly those "
          "bytes and the real Decode of them must give the value denoted.",
-    note=_CQL_NOTE, technique="byte-exact vectors computed by TLC from a TLA+ transcription of the serialization formats",
+    note=_CQL_NOTE, technique="byte-exact vectors computed by TLC from a TLA+ transcription of the serialization formats + TLC trace validation of random conversions (CqlValueTrace.tla) + call histories (CodecSeq.tla)",
     design_ref="DESIGN.md §3.8, §4 C12")
 CHECKS["C13"] = dict(
     level="exploration",
@@ -174,7 +175,7 @@ CHECKS["C13"] = dict(
          "derived in TLA+ from exact range predicates; TLC also checks those predicates are intervals, so the verdict between two "
          "neighbouring boundaries cannot differ. The real Encode/Decode must deliver exactly the same mathematical value or fail; also "
          "float64->float32 narrowing and 32-bit duration components.",
-    note=_CQL_NOTE, technique="TLA+ range predicates (exact bit-list integers) evaluated by TLC + comparison with the real conversions",
+    note=_CQL_NOTE, technique="TLA+ range predicates (exact bit-list integers) evaluated by TLC + comparison with the real conversions + TLC trace validation of random conversions (CqlValueTrace.tla)",
     design_ref="DESIGN.md §3.8, §4 C13")
 CHECKS["C14"] = dict(
     level="exploration",
@@ -215,7 +216,7 @@ CHECKS["C18"] = dict(
          "detector; every concurrent return is compared with F in Go and a sample is validated by TLC (SharedCodecTrace.tla); race reports "
          "are violations. Schedules are sampled, not enumerated.",
     note="Trusted: the Go race detector for the data-race clause (a TLA+ model cannot see memory-level races); digests of results.",
-    technique="TLA+ stateless-codec spec + trace validation of concurrent real executions + Go race detector",
+    technique="TLA+ stateless-codec spec + trace validation of concurrent real executions (incl. concurrent first use) + Go race detector",
     design_ref="DESIGN.md §3.9, §4 C18")
 
 CHECKS["C15"] = dict(
